@@ -17,7 +17,7 @@ import json
 import random
 from typing import Any
 
-from harness.common import WORK, Ctx, MachineryError, cleanup_tlc, run_tlc, tlc_must_pass
+from harness.common import parse_tlc_values, WORK, Ctx, MachineryError, cleanup_tlc, run_tlc, tlc_must_pass
 from harness.pool import run_tasks
 
 LEVEL = "model_checking"
@@ -28,6 +28,12 @@ def _probe_job():
     from harness.precjobs import probes
 
     return probes()
+
+
+def _promo_job(cases):
+    from harness.promojobs import run_cases
+
+    return run_cases(cases)
 
 
 def run(ctx: Ctx) -> None:
@@ -54,12 +60,39 @@ def run(ctx: Ctx) -> None:
     n = 14
     tasks = [{"fn": "harness.precjobs:corpus_job", "args": {"indices": c}, "timeout": 3000} for c in [sel[i::n] for i in range(n)] if c]
     tasks.append({"fn": "harness.checks.c09:_probe_job", "args": {}, "timeout": 1800})
+    # J2O_Promotion: mixed-operand expressions; the lattice is checked against JAX, then predicts the model
+    rp = run_tlc("MC_Promotion", "MC_Promotion.cfg", timeout=900, workers=1, coverage=False)
+    tlc_must_pass(rp, "J2O_Promotion")
+    ctx.add_tlc(rp, "J2O_Promotion")
+    if rp.violated:
+        raise MachineryError(f"J2O_Promotion: {rp.violated} violated")
+    pcases = parse_tlc_values(rp.output.splitlines())
+    cleanup_tlc(rp)
+    if not pcases:
+        raise MachineryError("J2O_Promotion emitted no cases")
+    for c_ in [pcases[i::4] for i in range(4)]:
+        tasks.append({"fn": "harness.checks.c09:_promo_job", "args": {"cases": c_}, "timeout": 1800})
     res = run_tasks(tasks, nworkers=14, timeout=3000)
     events = []
     nexp = 0
     for task, out in res:
         if out.get("status") != "ok":
             raise MachineryError(f"C09 worker failed: {str(out)[:700]}")
+        if task["fn"].endswith("_promo_job"):
+            pr = out["result"]
+            if pr["spec_vs_jax"]:
+                raise MachineryError("J2O_Promotion disagrees with JAX eager (specification bug): " + json.dumps(pr["spec_vs_jax"][:2])[:500])
+            ctx.extra["promotion_cases_run"] = ctx.extra.get("promotion_cases_run", 0) + pr["n"]
+            ctx.cov["evaluations"] += pr["n"]
+            for c_ in task["args"]["cases"]:
+                ctx.count(("promotion", json.dumps(c_["c"], sort_keys=True)), nontrivial=c_["c"]["a"] != c_["c"]["b"], n=0)
+            for ef in pr["export_failed"]:
+                ctx.extra.setdefault("promotion_export_errors", []).append({"case": ef["case"], "error": ef["error"][:120]})
+            for pb in pr["problems"]:
+                c_ = pb["case"]
+                ctx.violation({"engine": "promotion", "op": c_["op"], "a": c_["a"], "b": c_["b"], "double": c_["x64"], "what": pb["what"]},
+                              f"{c_['op']}({c_['a']}, {c_['b']}) exported with enable_double_precision={c_['x64']}{' (+1 op)' if c_['tail'] else ''}: {pb['what']}: {pb['detail'][:200]}", pb)
+            continue
         if task["fn"].endswith("_probe_job"):
             for p in out["result"]:
                 ctx.count(("probe", p["probe"]), nontrivial=bool(p.get("f32_would_differ")))
